@@ -313,6 +313,14 @@ class BuiltinMixin:
             return V(TSeq(STR), f(r.t))
         if len(args) == 2 or 'maxsplit' in kw:
             mx = args[1] if len(args) == 2 else kw['maxsplit']
+            if z3.is_int_value(mx.t) and mx.t.as_long() == 1 and z3.is_string_value(args[0].t) and len(args[0].t.as_string()) > 0:
+                # s.split(sep, 1): [s] when sep does not occur, else [head, rest] with s == head + sep + rest and sep not in head
+                sep = args[0].t
+                hd = self.UF('str_split1_head', SS(), SS(), SS())(r.t, sep)
+                rs = self.UF('str_split1_rest', SS(), SS(), SS())(r.t, sep)
+                self.fact(z3.Implies(z3.Contains(r.t, sep), z3.And(r.t == z3.Concat(hd, sep, rs), z3.Not(z3.Contains(hd, sep)))),
+                          's.split(sep, 1): one piece (s itself) when sep does not occur, else head + sep + rest with sep not in head (CPython docs)')
+                return V(TSeq(STR), z3.If(z3.Contains(r.t, sep), z3.Concat(z3.Unit(hd), z3.Unit(rs)), z3.Unit(r.t)))
             f = self.UF('str_split_max', SS(), SS(), z3.IntSort(), z3.SeqSort(SS()))
             out = V(TSeq(STR), f(r.t, args[0].t, mx.t))
             st.assume(z3.Length(out.t) >= 1)
